@@ -967,7 +967,7 @@ func c15Omissions(p *Prog, r *Report) {
 			r.OK("D4-omissions", key+":none", p.Pos(fn.Pos()), "every entry is carried over, no omission")
 		}
 		for x, c := range got {
-			if _, audited := wantN[x]; !audited && c > 0 {
+			if _, audited := wantN[x]; !audited && c > 0 && !subsumedDecision(x, wantN, got) {
 				r.Fail("D4-omissions", key+":new:"+short(x, 140), p.Pos(fn.Pos()), "a decision that leaves the current entry out of the result is not among the audited omissions: "+x+" (an export the importer filters, or an importer/exporter that filters on something other than the package URL, breaks the round trip)")
 			} else {
 				r.OK("D4-omissions", key+":"+short(x, 140), p.Pos(fn.Pos()), "audited omission")
